@@ -66,7 +66,7 @@ def scenario_list(ctx):
     return out
 
 
-def make_scenario(seed, typ, r, c, F, form, forced, scaled=True):
+def make_scenario(seed, typ, r, c, F, form, forced, scaled=True, grid=None):
     """the scenario of one 64-bit seed; scaled=False gives its unscaled twin (same network, standards, DUT, history
     variations: the scale is drawn last)"""
     import random
@@ -74,6 +74,14 @@ def make_scenario(seed, typ, r, c, F, form, forced, scaled=True):
     sc = calcore.gen_scenario(rng, typ, r, c, F, form=form)
     sc.hist_seed = rng.getrandbits(32)
     sc.scale = None
+    sc.apply_both = True          # the device through vnacal_apply_m AND vnacal_apply (a/b)
+    # frequency grid of any density (ordinary, wide, dense: 1 Hz steps at GHz, neighbours a few ulps apart); the error
+    # boxes differ per frequency, except in one scenario out of five where they are constant and the device is also
+    # measured BETWEEN the calibration points
+    grng = random.Random(rng.getrandbits(32))
+    calcore.draw_grid(grng, sc, kind=grid)
+    if sc.F >= 2 and grng.random() < 0.2 and sc.grid["kind"] != "ulp":
+        calcore.constant_network(grng, sc)
     want = rng.random() < SCALE_PROB or forced is not None
     if want and scaled:
         calcore.draw_scale(rng, sc, mode=forced)
@@ -190,6 +198,18 @@ def e2e(ctx, exe):
     ctx.extra["e2e_skipped_ill_conditioned"] = skipped
     ctx.extra["e2e_worst_apply_rel_error"] = worst_apply
     ctx.extra["e2e_worst_terms_residual"] = worst_terms
+    grids = {}
+    for sc in scen:
+        if sc.F >= 2:
+            k = sc.grid["kind"]
+            grids[k] = grids.get(k, 0) + 1
+    ctx.extra["e2e_grids_by_kind_F_ge_2"] = grids
+    dense = [sc.grid["relative_spacing"] for sc in scen if sc.F >= 2 and sc.grid["kind"] == "dense"]
+    ctx.extra["e2e_dense_min_relative_spacing"] = min(dense) if dense else None
+    ctx.extra["e2e_constant_network_applied_between_points"] = len([sc for sc in scen if getattr(sc, "between", None)])
+    ctx.extra["e2e_applies_per_scenario"] = "vnacal_apply_m and vnacal_apply (a/b), both, at the calibration frequencies"
+    # every density must have been exercised with at least two frequencies
+    grid_ok = all(grids.get(k, 0) > 0 for k in calcore.GRID_KINDS)
     ctx.extra["e2e_scaled_scenarios"] = sum(sc_n.values())
     ctx.extra["e2e_scaled_by_mode"] = sc_n
     ctx.extra["e2e_scaled_used_by_mode"] = sc_used
@@ -200,7 +220,7 @@ def e2e(ctx, exe):
     unscaled_types = [t_ for t_ in TYPES if not sc_types.get(t_)]
     allkeys = set((t, r, c) for t in TYPES for r in range(1, 5) for c in range(1, 5) if dims_allowed(t, r, c))
     missing = sorted(allkeys - covered)
-    ok = not failures and skipped <= len(scen) // 5 and not missing and not unscaled_types
+    ok = not failures and skipped <= len(scen) // 5 and not missing and not unscaled_types and grid_ok
     detail = ""
     if failures:
         detail = failures[0][1]
@@ -208,6 +228,8 @@ def e2e(ctx, exe):
         detail = "no well-conditioned passing scenario for %s" % (missing[:5],)
     elif unscaled_types:
         detail = "no magnitude-scaled scenario for %s" % (unscaled_types,)
+    elif not grid_ok:
+        detail = "a frequency-grid density was not exercised with F >= 2: %s" % (grids,)
     elif not ok:
         detail = "%d of %d draws ill-conditioned" % (skipped, len(scen))
     ctx.obligation("tie:e2e calibrate+apply vs E-term oracle (8 types x dims 1..4, all entry points)", ok, detail)
